@@ -560,6 +560,26 @@ func (c *Ctx) packedRead(d *deepView, call *ssa.Call, fr *frame, bufArg ssa.Valu
 			}
 		}
 	}
+	// the buffer (or a part of it) handed to code that may decode it out of sight
+	gap := "(skipped)"
+	for _, di := range d.order {
+		call, isC := di.i.(*ssa.Call)
+		if !isC {
+			continue
+		}
+		id := ir.CallID(call)
+		if _, _, _, isU := uintCallWidth(id); isU || id == "builtin.copy" || id == "builtin.len" || id == "builtin.cap" || id == "io.ReadFull" || id == "io.ReadAtLeast" {
+			continue
+		}
+		for _, a := range ir.CallArgs(call) {
+			if !isByteSlice(a.Type()) {
+				continue
+			}
+			if _, isBuf := d.sliceBaseObj(a, di.fr, obj); isBuf {
+				gap = "(unattributed)"
+			}
+		}
+	}
 	sort.SliceStable(decs, func(i, j int) bool { return decs[i].off < decs[j].off })
 	pos := lo
 	end := lo + total.K
@@ -568,13 +588,13 @@ func (c *Ctx) packedRead(d *deepView, call *ssa.Call, fr *frame, bufArg ssa.Valu
 			continue // outside this region, or an overlapping second look at the same bytes
 		}
 		if dc.off > pos {
-			*out = append(*out, leaf{id: "(skipped)", width: int(dc.off - pos), order: "-"})
+			*out = append(*out, leaf{id: gap, width: int(dc.off - pos), order: "-"})
 		}
 		*out = append(*out, leaf{id: dc.id, width: dc.width, order: dc.order})
 		pos = dc.off + int64(dc.width)
 	}
 	if pos < end {
-		*out = append(*out, leaf{id: "(skipped)", width: int(end - pos), order: "-"})
+		*out = append(*out, leaf{id: gap, width: int(end - pos), order: "-"})
 	}
 }
 
@@ -599,7 +619,11 @@ func (d *deepView) segLeaves(segs []bseg, out *[]leaf) string {
 			}
 		case "zero", "lit":
 			if sg.width.isConst() {
-				*out = append(*out, leaf{id: "(skipped)", width: int(sg.width.K), order: "-"})
+				id := "(skipped)"
+				if sg.unk {
+					id = "(unattributed)"
+				}
+				*out = append(*out, leaf{id: id, width: int(sg.width.K), order: "-"})
 			} else {
 				return "a run of constant bytes of variable length"
 			}
